@@ -54,7 +54,7 @@ Property oracle (real objects only), failure signatures:
   iter/not-the-views, view/alias-refused iteration does not yield the phase views; Stream[label in the other case] refused
   mass-view/<what>                       the stream's own mass accessor / F_mass disagrees with its molar flows (stale _data_cache)
   restore/raises, restore/mismatch       set_data of a snapshot raised / did not reproduce what get_data saw
-  temporary/enter, temporary/exit-mismatch, temporary/raises   a temporary(...) context did not set T/P on entering (or changed
+  temporary/enter, temporary/exit-mismatch, temporary/raises   a temporary(...) context did not set T/P on entering (judged for the separate enter/exit form only) (or changed
                                          flows/phases), did not put the stream back into the state it had ON ENTERING, or raised
   <op>/contents-changed                  view, save, T/P writes, a (refused) view.phase assignment, unlink or
                                          _reset_thermo changed flows/phases (unlink, thermo: also T, P)
